@@ -213,7 +213,12 @@ impl Sim {
         let pad = if self.cfg.big && rng.chance(1, 6) { rng.range(100_000, 400_000) } else { *rng.pick(&[0usize, 0, 3, 50, 2000]) };
         let mut body = format!("{}:", t).into_bytes();
         body.extend(std::iter::repeat(b'.').take(pad));
-        let spec = RespSpec { v11: rng.chance(1, 2), code: 200, ops: vec![BOp::Body(body)] };
+        let mut ops = vec![BOp::Body(body)];
+        // (a fifth of the answers carry the application's own Server identity: it belongs to that response only)
+        if rng.chance(1, 5) {
+            ops.push(BOp::Server(b"app-identity/2".to_vec()));
+        }
+        let spec = RespSpec { v11: rng.chance(1, 2), code: 200, ops };
         if let Some(i) = client {
             if i < self.plans.len() {
                 self.plans[i].answered.push(t);
@@ -617,6 +622,7 @@ pub fn c07_unflushed_answers_at_hangup(rec: &mut Rec, rng: &mut Rng, answered_be
     }
     match leave {
         0 => sim.w.close(rec, a),
+        2 => sim.w.shutdown(rec, a, Shutdown::Read),
         _ => sim.w.shutdown(rec, a, Shutdown::Both),
     }
     if flush {
@@ -626,9 +632,16 @@ pub fn c07_unflushed_answers_at_hangup(rec: &mut Rec, rng: &mut Rng, answered_be
     }
     sim.poll(rec);
     sim.poll(rec);
-    if leave != 0 {
+    if leave == 1 {
         sim.w.close(rec, a);
         sim.poll(rec);
+    }
+    if leave == 2 {
+        // only the read side is shut: the write of the supplied answer fails (no hang-up event ever comes); a few more
+        // polls, during which nothing may be forgotten about the requests still in flight
+        for _ in 0..3 {
+            sim.poll(rec);
+        }
     }
     let j = sim.connect(rec);
     sim.poll(rec);
@@ -649,7 +662,7 @@ pub fn c07_unflushed_answers_at_hangup(rec: &mut Rec, rng: &mut Rng, answered_be
 
 pub fn c07(rec: &mut Rec, rng: &mut Rng, thorough: bool) {
     for answered_before in 0..=2 {
-        for leave in 0..2 {
+        for leave in 0..3 {
             c07_unflushed_answers_at_hangup(rec, rng, answered_before, leave, false);
             if answered_before > 0 {
                 c07_unflushed_answers_at_hangup(rec, rng, answered_before, leave, true);
